@@ -1,2 +1,28 @@
-(* C18 -- placeholder *)
-Theorem C18_placeholder : True. Proof. exact I. Qed.
+(* C18 -- available data is always drained without waiting for more traffic.  Statements only.
+   The kernel queue and the TLS layer are MODELLED (Model.Transport): plain TCP; TLS handing out one record per read;
+   TLS with read-ahead (everything that has arrived is decrypted and buffered).  SelectorBase.wait and _recv are the
+   model's wait and recv. *)
+From Coq Require Import List NArith.
+From Coq.Strings Require Import Byte.
+From Model Require Import Bytes Transport.
+From Proofs Require Import TransportFacts GenTie.
+Import ListNotations.
+Open Scope N_scope.
+
+(* the loop blocks in the selector only when nothing is available: no decrypted bytes buffered inside the TLS layer and
+   nothing in the kernel queue *)
+Theorem C18_blocks_only_when_empty : forall t, records_nonempty t -> (wait t = None <-> available t = []).
+Proof. exact wait_blocks_iff_nothing_available. Qed.
+Print Assumptions C18_blocks_only_when_empty.
+
+(* before it blocks, the read side has handed every available byte to WebSocket.feed, in order, in non-empty pieces
+   of at most 64 KiB: for every burst size and every record alignment, for all three transports *)
+Theorem C18_everything_is_drained : forall t, well_formed t ->
+  let '(chunks, t') := drain_all t in
+  concat chunks = available t /\ available t' = [] /\ Forall (fun c => c <> [] /\ blen c <= BUFFER_SIZE) chunks.
+Proof. exact drain_all_delivers_everything. Qed.
+Print Assumptions C18_everything_is_drained.
+
+(* (regenerated) the buffer size of the running code is the model's *)
+Theorem C18_buffer_size : Gen.GenConst.impl_buffer_size = BUFFER_SIZE.
+Proof. destruct impl_constants as (_ & _ & B & _). exact B. Qed.
